@@ -234,6 +234,15 @@ def run(facts, rep, tier, ctx):
     pr = PathRules(facts, ws)
     n = pr.table_p(rep, "R01.1")
     rep.floor("Table P obligations", n, 25)
+    # a successful copy_dir / move_dir changes exactly the entries it names: every walked item lands at destination.join(its
+    # path relative to the source), directories and files chosen by the item's own type (shared with C11 R11.3)
+    pr.generic_routes(rep, "R01.1g")
+    # a completed write session leaves exactly the written bytes in the entry it names (publication, shared with C04 R04.1)
+    import os as _os
+    from ..handlerules import Handles
+    from ..panics import Discharger, load_records
+    _D = Discharger(facts, load_records(_os.path.join(ctx["V"], "rules", "panic_records.json")))
+    Handles(facts, False, _D).writer_rules(rep, "R01.6", "R01.6", "R01.6t")
     # create_dir_all is the one composite the adapters themselves rely on (overlay parent materialisation)
     pr.create_dir_all(rep, "R01.1c")
     from . import c13
@@ -267,6 +276,8 @@ def run(facts, rep, tier, ctx):
         A = _Prefixed(rep, "A")
         pra = PathRules(facts, wa)
         k = pra.table_p(A, "R01.1")
+        pra.generic_routes(A, "R01.1g")
+        Handles(facts, True, _D).writer_rules(A, "R01.6", "R01.6", "R01.6t")
         pra.create_dir_all(A, "R01.1c")
         founda, k2, mma = table_m(facts, A, "R01.2", "R01.2k", self_ty=wa.memory, trait="AsyncFileSystem")
         k3 = failed_primitive_unchanged(facts, A, "R01.3", mma)
